@@ -45,5 +45,9 @@ theorem exit_codes : ∀ c ∈ List.range 256,
 theorem term_signals : ∀ g ∈ List.range 65, g ≠ 0 → ∀ core ∈ [0, 128],
     fromStatus (g + core) = .exitSignal (fromI32 g) := by decide +kernel
 
+/-- the translator read every arm of `From<i32>`, `to_nix` and `from_nix` (an arm it cannot read would otherwise just be missing
+    from the tables the theorems above quantify over) -/
+theorem translator_complete : Wp.Gen.untranslated = [] := by decide
+
 #print axioms spellings_agree
 end Wp
